@@ -15,6 +15,8 @@ RULE = ("seeded streams: rotation vectors = small-integer directions scaled to m
         "from 0 and pi, exact half-turns about the 26 lattice directions and about rational unit axes, half-turns whose axis "
         "has a tiny component; off-contract shapes. non-trivial = the call returned values; distinct by hash of inputs")
 TRUSTED = ["Coq 8.16.1 kernel, vm_compute for the correspondence evaluation",
+           "execution instance QOpsF of coq/corr/K_C10.v: the same generic model on 256-bit binary fixed point (rounding < 1e-76; "
+           "the exact-rational QOps needs seconds of gcd per Jacobian), instead of QOps",
            "axioms (Print Assumptions): ClassicalDedekindReals.sig_forall_dec, sig_not_dec, "
            "FunctionalExtensionality.functional_extensionality_dep, Classical_Prop.classic (all Coq stdlib Reals)",
            "tools/symtrace.py tracing translator + numpy shim (re-validated numerically each run)",
@@ -41,8 +43,12 @@ UNF_INV = ("rodrigues_inv rodrigues_inv_of_proj rodrigues_inv_jac rodrigues_inv_
            "a00 a01 a02 a10 a11 a12 a20 a21 a22 vx vy vz")
 
 
+_SENTINEL = object()
+
+
 def _svd_stub_call(R, jac=True):
-    """rotation_matrix_to_rodrigues_vector with the LAPACK step replaced by the identity projection (u = r, v = I)."""
+    """rotation_matrix_to_rodrigues_vector with the LAPACK step replaced by the identity projection
+    (svd returns (r, None, sentinel) and np.dot(r, sentinel) = r): everything after `r = np.dot(u, v)` is the real code."""
     import polliwog.transform._rodrigues as M
     inner = M.np
 
@@ -51,11 +57,15 @@ def _svd_stub_call(R, jac=True):
 
         @staticmethod
         def svd(r):
-            return r, None, inner.eye(3)
+            return r, None, _SENTINEL
 
     class Wrap:
         def __getattr__(self, n):
-            return LA if n == "linalg" else getattr(inner, n)
+            if n == "linalg":
+                return LA
+            if n == "dot":
+                return lambda a, b: a if b is _SENTINEL else inner.dot(a, b)
+            return getattr(inner, n)
 
     M.np = Wrap()
     try:
@@ -112,6 +122,43 @@ Proof. intros {vars} Hpath. unfold {T}_path in Hpath; rops. path_facts Hpath. un
   unfold {T}. cbv [%s]; rops. split; list_eq_ring. Qed.""" % (R3, R3, UNF),
         imports=imports, perturb=1e-18,
         expect_structure={"tuple": [{"shape": [3, 3], "data": ["e"] * 9}, {"shape": [3, 9], "data": jdata}]}))
+    # inverse map after the svd step (LAPACK stubbed by the identity projection): generic branch, vector and Jacobian
+    MV = " ".join("m%d" % i for i in range(9))
+    M3 = "(M3 %s)" % MV
+    inv_head = """Lemma {T}_ok : forall {vars} : R, {T}_path ROps {vars} ->
+  {T} ROps {vars} =
+  match rodrigues_inv ROps (fun m => m) %s with Some v => vlist v | None => [] end
+  ++ concat (rodrigues_inv_jac ROps (fun m => m) %s).
+Proof. intros {vars} Hpath. unfold {T}_path in Hpath; rops. path_facts Hpath. unfold nfrac in *; rops.
+  unfold rodrigues_inv, rodrigues_inv_jac, rodrigues_inv_of_proj, rodrigues_inv_jac_of_proj, rod_inv_theta.
+  assert (Hc : rod_inv_c ROps %s = (m0 + m4 + m8 - 1) * (1 / 2)).
+  { unfold rod_inv_c. cbn [a00 a11 a22]. unfold rod_half, nfrac, n1 at 1; rops. apply nclip_id. lra. }
+  assert (Hs : rod_inv_s ROps %s =
+               sqrt ((m7 - m5) * (m7 - m5) + (m2 - m6) * (m2 - m6) + (m3 - m1) * (m3 - m1)) * (1 / 2)).
+  { unfold rod_inv_s, rod_antisym, rod_half, nfrac, vnorm, vnorm2, vdot; rops;
+    cbn [vx vy vz a00 a01 a02 a10 a11 a12 a20 a21 a22]. reflexivity. }
+  rewrite Hc, Hs. change (nltb ROps) with Rltb.
+""" % (M3, M3, M3, M3)
+    imports_inv = imports + [("PW.proofs", "P_rodrigues_inv")]
+    Rgen = r2m(np.array([0.3, -0.5, 0.8]))
+    ks.append(Kernel(
+        "inv_generic", {"m": Rgen.tolist()}, lambda m: _svd_stub_call(m, True),
+        inv_head + """  rewrite (proj2 (Rltb_false _ _)) by (unfold rod_small, nfrac; rops; lra).
+  unfold {T}.
+  cbv [rod_inv_jac_generic rod_antisym rod_half rod_m1 ldot lmatmul_cols lcols3 lcols4 lcols5 row_T33
+       concat map map2 zip fst snd nsum fold_left app vlist vscale nfrac n0 n1 n2
+       a00 a01 a02 a10 a11 a12 a20 a21 a22 vx vy vz]; rops.
+  list_eq ltac:(first [ring | field; lra]). Qed.""",
+        imports=imports_inv, perturb=1e-9))
+    # s < 1e-5 and c > 0: zero vector and the literal Jacobian table
+    ks.append(Kernel(
+        "inv_identity", {"m": np.eye(3).tolist()}, lambda m: _svd_stub_call(m, True),
+        inv_head + """  rewrite (proj2 (Rltb_true _ _)) by (unfold rod_small, nfrac; rops; lra).
+  rewrite (proj2 (Rltb_true _ _)) by (unfold n0; rops; lra).
+  unfold {T}.
+  cbv [rod_inv_jac_identity rod_half concat app vlist vzero nfrac n0 n1 n2 vx vy vz]; rops.
+  list_eq ltac:(first [ring | field; lra]). Qed.""",
+        imports=imports_inv, perturb=0))
     return ks
 
 
@@ -321,7 +368,7 @@ def coq_case(c, o):
     fn = {"cv2": "FCv2", "r2m": "FR2M", "m2r": "FM2R"}[c["fn"]]
     shape = coq_list(coq_nat(s) for s in c["shape"])
     data = coq_list(q(x) for x in c["data"])
-    P = "(I3 QOps)"
+    P = "(I3 QF)"
     t = "0"
     if isinstance(o, dict) and "raise" in o:
         obs = "(Raise %s)" % (o["raise"] if o["raise"] != "OtherError" else "OtherError")
